@@ -105,6 +105,22 @@ if __name__ == "__main__":
         for bid in ids:
             r = run(bid)
             print(bid, "false_alarms:", list(r.get("false_alarms", {})), "analysis_errors:", list(r.get("analysis_errors", {})), r.get("error", ""))
+    elif cmd == "mark-open":
+        # record, per refactoring, the checks it still trips (VIOLATION or exit 2) as open brittleness; cleared when a re-run is silent
+        for bid in sorted(os.listdir(BASE)):
+            mp = os.path.join(BASE, bid, "meta.json")
+            if not os.path.exists(mp):
+                continue
+            m = json.load(open(mp))
+            r = m.get("result", {})
+            still = sorted(set(r.get("false_alarms", {})) | set(r.get("analysis_errors", {})))
+            if still:
+                m["open"] = still
+            else:
+                m.pop("open", None)
+            json.dump(m, open(mp, "w"), indent=1)
+            if still:
+                print(bid, "open:", still)
     elif cmd == "suite":
         for bid in sys.argv[2:]:
             print(bid, suite(bid))
